@@ -270,6 +270,12 @@ def _session(job):
             # several MARKET exits pending in one flush (the first closes the position, cancel-all meets a queued order)
             r['script']['update_kinds'] = list(r['script'].get('update_kinds') or []) + ['double_market_exit', 'double_market_exit']
             r['script']['p_update'] = max(r['script'].get('p_update') or 0.0, 0.2)
+        elif not job.get('liq') and rng.random() < 0.35:
+            # the position is closed by a MARKET exit inside the strategy step (liquidate() in update_position) and the
+            # callback of that close places a resting order through the broker
+            r['script']['update_kinds'] = list(r['script'].get('update_kinds') or []) + ['liquidate', 'liquidate']
+            r['script']['p_update'] = max(r['script'].get('p_update') or 0.0, 0.2)
+            r['script']['on_close_broker'] = True
     begin()
     M['session'] = True
     M['rng'] = random.Random(job['seed'] + 1)
